@@ -27,18 +27,34 @@ class SrcSchema:
     def __init__(self, root="/repo/rust/altrios-core/src"):
         self.structs = {}  # name -> [Field]
         self.all_structs = {}  # name -> [[Field]] (same name in several modules)
+        self.qual = {}  # "<file stem>::<Name>" -> [Field]
         self.derives = {}  # name -> set of derive names
         self.enums = {}  # name -> [(variant, kind, payload types)]
         for d, _, files in os.walk(root):
             for fn in files:
                 if fn.endswith(".rs"):
-                    self._scan(open(os.path.join(d, fn)).read())
+                    stem = fn[:-3] if fn != "mod.rs" else os.path.basename(d)
+                    self._scan(open(os.path.join(d, fn)).read(), stem)
         # generated *HistoryVec structs: same fields, each Vec<T>
         for name in list(self.structs):
             if "HistoryVec" in self.derives.get(name, ()):
                 self.structs[name + "HistoryVec"] = [Field(f.name, f"Vec<{f.ty}>") for f in self.structs[name]]
 
-    def _scan(self, src):
+    def add_wrapper(self, name, fields):
+        """harness-defined struct bundling the objects one call touches (mirrored by a serde struct in the hook file)"""
+        self.structs[name] = [Field(n, t) for (n, t) in fields]
+        self.wrappers = getattr(self, "wrappers", {})
+        self.wrappers[name] = [n for (n, _) in fields]
+
+    def lookup(self, ty):
+        """fields of a struct type given as written in source ('path_res::Strap', 'Strap', 'si::Mass' -> None)"""
+        t = re.sub(r"<.*>$", "", ty.strip())
+        segs = t.split("::")
+        if len(segs) >= 2 and "::".join(segs[-2:]) in self.qual:
+            return self.qual["::".join(segs[-2:])]
+        return self.structs.get(segs[-1])
+
+    def _scan(self, src, stem=""):
         src_nc = re.sub(r"//[^\n]*", "", src)
         for m in re.finditer(r"\bstruct\s+(\w+)\s*(?:<[^>{]*>)?\s*\{", src_nc):
             name = m.group(1)
@@ -76,6 +92,7 @@ class SrcSchema:
             for b in blk[-2:]:
                 ds |= {x.strip().split("::")[-1] for x in b.split(",")}
             self.all_structs.setdefault(name, []).append(fields)
+            self.qual.setdefault(f"{stem}::{name}", fields)
             self.structs.setdefault(name, fields)
             self.derives.setdefault(name, ds)
         for m in re.finditer(r"\bstruct\s+(\w+)\s*;", src_nc):
